@@ -21,8 +21,8 @@ CHECKS = {
    text="2-6 caller tasks run ParseRealtime/ParseStatic on shared input buffers and shared option/extension objects as real goroutines of which exactly one is runnable; a seeded scheduler picks who runs at every yield point (extension interface proxy, tagged hooks in csv.NextRow and the realtime entity loops, task-level points, and the sites an AST instrumenter inserts into a scratch copy of /repo's working tree: every declared function's entry and around every synchronisation-like call). The binary is built with -race and the scheduler's own synchronisation is hidden from ThreadSanitizer, so only synchronisation performed by the library orders two tasks. Oracle: no race report; each call's result equals the same call executed alone on fresh objects; the digest of the solo results equals the one fresh processes compute (GOMAXPROCS 1/4/16/2, half of them in the opposite order: sticky process-wide state); shared inputs unchanged.",
    note="Trusted: ThreadSanitizer, the runtime.RaceDisable/Enable bracket around park/resume. Pre-emption only at yield points (the race detector still sees every access)."),
  "C06": dict(engine="history", category="exploration", design_ref="DESIGN.md §4 C06",
-   technique="deterministic simulation of call histories on long-lived option/extension objects; refinement against fresh-object reference, in-process repetition and fresh-process digests",
-   text="Seeded histories of 2-10 parse calls on 1-3 long-lived options/extension objects (all bundled extension configurations, corrupt inputs included). Each call's result must equal the parse of the same bytes with a fresh equivalent object, all R in-process repetitions must agree in content and order, fresh child processes at several GOMAXPROCS values, half of them executing the same operations in the opposite order, must produce the same per-operation digests, documented option equivalences (nil timezone = UTC, nil extension = none) must hold, and the input buffer must be unchanged.",
+   technique="deterministic simulation of call histories on long-lived option/extension objects; refinement against fresh-object reference, in-process repetition, fresh-process digests (also in the opposite call order) and a simulated clock (testing/synctest bubble at several fake instants)",
+   text="Seeded histories of 2-10 parse calls on 1-3 long-lived options/extension objects (all bundled extension configurations, corrupt inputs included). Each call's result must equal the parse of the same bytes with a fresh equivalent object, all R in-process repetitions must agree in content and order, fresh child processes at several GOMAXPROCS values, half of them executing the same operations in the opposite order, must produce the same per-operation digests, documented option equivalences (nil timezone = UTC, nil extension = none) must hold, and the input buffer must be unchanged. A sub-check built with the newer Go toolchain parses 600 (thorough: 12 000) further inputs once under the real clock and again inside testing/synctest bubbles whose fake clock stands 24 years before, within hours of, and decades after the timestamps in the input: the results must be identical (the library reads no clock).",
    note="Go map iteration order cannot be seeded: order defects are detected probabilistically per run (inputs carry >= 3 members per map-built collection, R repetitions); state-leak failures replay exactly."),
  "C05": dict(engine="crash", category="exploration", design_ref="DESIGN.md §2.6, §4 C05",
    technique="seeded fault injection on stored bytes, the csv.New reader seam, records and protobuf fields, plus faulted feed sequences into the journal; crash/termination oracle",
